@@ -372,10 +372,11 @@ func parseFrame(s string) (wire.Frame, bool) {
 		}
 		return &wire.NewConnectionIDFrame{SequenceNumber: n(1), RetirePriorTo: n(2), ConnectionID: cidOf(n(1)), StatelessResetToken: tokOf(n(1))}, true
 	case "strm":
-		if len(f) != 4 || n(3) > 32<<20 {
+		fin := len(f) == 5 && f[4] == "fin"
+		if (len(f) != 4 && !fin) || n(3) > 32<<20 || (fin && n(3) == 0) {
 			return nil, false
 		}
-		return &wire.StreamFrame{StreamID: protocol.StreamID(n(1)), Offset: protocol.ByteCount(n(2)), Data: make([]byte, n(3)), DataLenPresent: true}, true
+		return &wire.StreamFrame{StreamID: protocol.StreamID(n(1)), Offset: protocol.ByteCount(n(2)), Data: make([]byte, n(3)), DataLenPresent: true, Fin: fin}, true
 	case "dgram":
 		if len(f) != 2 || n(1) > 1<<17 {
 			return nil, false
@@ -477,7 +478,7 @@ func (rn *runner) Exec(op string) string {
 				for off := 0; off < len(sf.Data); off += maxFrameData {
 					end := min(off+maxFrameData, len(sf.Data))
 					pkts = append(pkts, []wire.Frame{&wire.StreamFrame{StreamID: sf.StreamID, Offset: sf.Offset + protocol.ByteCount(off),
-						Data: sf.Data[off:end], DataLenPresent: true}})
+						Data: sf.Data[off:end], DataLenPresent: true, Fin: sf.Fin && end == len(sf.Data)}})
 				}
 				continue
 			}
@@ -522,11 +523,41 @@ func (rn *runner) Exec(op string) string {
 		if !rn.known[vh.Atoi64(f[1])] {
 			return "nostream"
 		}
-		got, ok := rn.conn.ReadFrom(vh.Atoi64(f[1]), int(n))
+		got, eof, ok := rn.conn.ReadFrom(vh.Atoi64(f[1]), int(n))
 		if !ok {
 			return "nostream"
 		}
+		if eof {
+			return fmt.Sprintf("n=%d eof", got)
+		}
 		return fmt.Sprintf("n=%d", got)
+	case "acc":
+		if len(f) != 2 || (f[1] != "b" && f[1] != "u") {
+			return "bad-op"
+		}
+		id := rn.conn.AcceptOne(f[1] == "u")
+		if id < 0 {
+			return "none"
+		}
+		return fmt.Sprintf("sid=%d", id)
+	case "stop":
+		if len(f) != 2 {
+			return "bad-op"
+		}
+		id := vh.Atoi64(f[1])
+		if !rn.known[id] || id%4 == 2 || !rn.conn.StopReading(id) {
+			return "nostream"
+		}
+		return "ok"
+	case "cls":
+		if len(f) != 2 {
+			return "bad-op"
+		}
+		id := vh.Atoi64(f[1])
+		if !rn.known[id] || id%4 >= 2 || !rn.conn.CloseSend(id) {
+			return "nostream"
+		}
+		return "ok"
 	case "pack":
 		if len(f) != 2 {
 			return "bad-op"
@@ -600,6 +631,26 @@ type gen struct {
 	w0        int64
 	readPct   int
 	sendPct   int
+	// stream lifecycle (focusLife): the peer opens streams (several at once by naming the last), finishes them,
+	// the application accepts some, reads them to the end, closes its side; the peer goes on to the highest
+	// stream count it was ever told (advertised, MAX_STREAMS)
+	lKind   string
+	lOpened int64
+	lTold   int64
+	lSt     map[int64]*lifeStream
+	lBulk   bool // the streams carry as much as the windows allow: the connection window is used up across streams
+}
+
+type lifeStream struct {
+	sent    int64
+	fin     bool
+	read    int64
+	eof     bool
+	touched bool // the application holds it (read or closed)
+	cls     bool
+	stopped bool
+	lastOff int64
+	lastLen int64
 }
 
 func (g *gen) sawPack(o quic.VerifLGOut) {
@@ -608,6 +659,14 @@ func (g *gen) sawPack(o quic.VerifLGOut) {
 	}
 	if o.MaxData > g.connCred {
 		g.connCred = o.MaxData
+	}
+	for _, ms := range o.MaxStreams {
+		kv := strings.SplitN(ms, ":", 2)
+		if len(kv) == 2 && ((kv[0] == "b") == (g.lKind == "br")) {
+			if v, err := strconv.ParseInt(kv[1], 10, 64); err == nil && v > g.lTold {
+				g.lTold = v
+			}
+		}
 	}
 }
 
@@ -627,12 +686,13 @@ const (
 	focusIdle
 	focusStreams
 	focusFlow
+	focusLife
 )
 
 func (rn *runner) mkPlan(r *vh.Rand) {
 	g := &rn.g
 	*g = gen{}
-	g.focus = r.Pick(25, 25, 15, 35)
+	g.focus = r.Pick(20, 20, 12, 28, 20)
 	var icrw, isrw, mcrw, msrw, mis, mius, dg, mit int64
 	if r.Chance(60) {
 		if r.Chance(50) {
@@ -652,9 +712,15 @@ func (rn *runner) mkPlan(r *vh.Rand) {
 		}
 		if r.Chance(40) {
 			mis = []int64{-1, 1, 7, 16, 99, 100, 101, 150, 1000}[r.Intn(9)]
+			if g.focus == focusLife && r.Bool() {
+				mis = []int64{1, 2, 3, 5, 7}[r.Intn(5)]
+			}
 		}
 		if r.Chance(40) {
 			mius = []int64{-1, 1, 3, 16, 100, 102, 103, 104, 500}[r.Intn(9)]
+			if g.focus == focusLife && r.Bool() {
+				mius = []int64{1, 2, 3, 5, 7}[r.Intn(5)]
+			}
 		}
 		if r.Chance(40) {
 			dg = 1
@@ -737,10 +803,18 @@ func (rn *runner) mkPlan(r *vh.Rand) {
 			ed("imsdu", win(enfStream))
 		}
 		if pe(50) {
-			ed("imsb", pickVal(r, []int64{enfBidi}, 0, 300))
+			if g.focus == focusLife && r.Chance(60) {
+				ed("imsb", r.Range(1, 9))
+			} else {
+				ed("imsb", pickVal(r, []int64{enfBidi}, 0, 300))
+			}
 		}
 		if pe(50) {
-			ed("imsu", pickVal(r, []int64{enfUni}, 0, 300))
+			if g.focus == focusLife && r.Chance(60) {
+				ed("imsu", r.Range(1, 9))
+			} else {
+				ed("imsu", pickVal(r, []int64{enfUni}, 0, 300))
+			}
 		}
 		if pe(45) {
 			ed("acil", r.Range(2, 12))
@@ -779,6 +853,10 @@ func (rn *runner) afterNew(r *vh.Rand) {
 	g.readPct = []int{26, 30, 34, 51, 60, 100}[r.Intn(6)]
 	// (a sender that is limited by the path, not by flow control, leaves part of its credit unused)
 	g.sendPct = []int{100, 100, 60, 75, 90}[r.Intn(5)]
+	g.lKind = []string{"br", "uni"}[r.Intn(2)]
+	g.lTold = g.a.get(map[string]string{"br": "imsb", "uni": "imsu"}[g.lKind])
+	g.lSt = map[int64]*lifeStream{}
+	g.lBulk = r.Chance(40)
 }
 
 func (g *gen) tick(r *vh.Rand, fast bool) int64 {
@@ -970,6 +1048,168 @@ func (rn *runner) genFlow(r *vh.Rand) string {
 	}
 }
 
+// genLife: the life of the streams the peer opens.
+func (rn *runner) genLife(r *vh.Rand) string {
+	g := &rn.g
+	t := g.tick(r, true)
+	credit := g.a.get(map[string]string{"br": "imsdbr", "uni": "imsdu"}[g.lKind])
+	room := func(st *lifeStream) int64 {
+		if g.lBulk {
+			return min(credit-st.sent, g.connCred-g.connSent, 4<<20)
+		}
+		return min(credit-st.sent, g.connCred-g.connSent, 40)
+	}
+	st := func(num int64) *lifeStream {
+		if g.lSt[num] == nil {
+			g.lSt[num] = &lifeStream{}
+		}
+		return g.lSt[num]
+	}
+	send := func(num int64, fin bool) string {
+		s := st(num)
+		n := room(s)
+		if n < 1 {
+			if s.sent > 0 || s.fin {
+				return fmt.Sprintf("pack %d", t)
+			}
+			return fmt.Sprintf("pkt %d strm:%d:0:0", t, sidOf(g.lKind, num))
+		}
+		if g.lBulk {
+			n = []int64{n, n, n, max(1, n/2), max(1, n/3)}[r.Intn(5)]
+		} else {
+			n = r.Range(1, n)
+		}
+		off := s.sent
+		s.sent += n
+		g.connSent += n
+		s.lastOff, s.lastLen = off, n
+		if fin {
+			s.fin = true
+			return fmt.Sprintf("pkt %d strm:%d:%d:%d:fin", t, sidOf(g.lKind, num), off, n)
+		}
+		return fmt.Sprintf("pkt %d strm:%d:%d:%d", t, sidOf(g.lKind, num), off, n)
+	}
+	var unfinished, readable, closable []int64
+	for num := int64(1); num <= g.lOpened && num <= 5000; num++ {
+		s := st(num)
+		if !s.fin {
+			unfinished = append(unfinished, num)
+		}
+		if !s.eof && !s.stopped && (s.sent > s.read || s.fin) {
+			readable = append(readable, num)
+		}
+		if g.lKind == "br" && s.touched && !s.cls {
+			closable = append(closable, num)
+		}
+	}
+	if g.lBulk && g.connSent > 0 && g.connCred-g.connSent < 1 {
+		// the peer is blocked on the connection window: the application consumes what there is, a packet leaves —
+		// the window has to move (bytes read, and the unread rest of finished streams it stopped reading)
+		if len(readable) > 0 && r.Chance(85) {
+			num := readable[r.Intn(len(readable))]
+			s := st(num)
+			if s.fin && r.Chance(45) { // … or gives up on a stream whose end is known: the unread rest is handed back
+				s.stopped, s.touched = true, true
+				return fmt.Sprintf("stop %d", sidOf(g.lKind, num))
+			}
+			n := s.sent - s.read
+			s.read, s.touched = s.sent, true
+			if s.fin {
+				s.eof = true
+			}
+			return fmt.Sprintf("rd %d %d", sidOf(g.lKind, num), max(n, 1))
+		}
+		return fmt.Sprintf("pack %d", t)
+	}
+	for range 8 {
+		switch r.Pick(26, 22, 26, 12, 14, 9) {
+		case 0: // the peer opens further streams by naming the last of them
+			if g.lOpened > g.lTold {
+				continue
+			}
+			num := g.lOpened + []int64{1, 1, 2, 3, 4}[r.Intn(5)]
+			switch {
+			case r.Chance(18):
+				num = g.lTold // everything it was told
+			case r.Chance(5):
+				num = g.lTold + 1 // one too many: the peer leaves what it was told
+			}
+			if num > g.lTold+1 || (num > g.lTold && g.lOpened < g.lTold) {
+				num = g.lTold
+			}
+			if num <= g.lOpened || num < 1 || num > 5000 {
+				continue
+			}
+			g.lOpened = num
+			return send(num, r.Chance(70))
+		case 1: // more data, or the end, on a stream that is open
+			if r.Chance(12) && g.lOpened >= 1 { // a retransmission of a stream's last frame
+				num := r.Range(1, min(g.lOpened, 5000))
+				if s := st(num); s.fin && s.lastLen > 0 {
+					return fmt.Sprintf("pkt %d strm:%d:%d:%d:fin", t, sidOf(g.lKind, num), s.lastOff, s.lastLen)
+				}
+			}
+			if len(unfinished) == 0 {
+				continue
+			}
+			return send(unfinished[r.Intn(len(unfinished))], r.Chance(75))
+		case 2: // the application reads (accepting streams up to that one)
+			if len(readable) == 0 {
+				continue
+			}
+			num := readable[0]
+			if r.Chance(35) {
+				num = readable[r.Intn(len(readable))]
+			}
+			s := st(num)
+			n := s.sent - s.read + []int64{0, 8}[r.Intn(2)]
+			if r.Chance(15) && s.sent-s.read > 1 {
+				n = (s.sent - s.read) / 2
+			}
+			if n < 1 {
+				n = 1
+			}
+			s.read = min(s.sent, s.read+n)
+			s.touched = true
+			if s.fin && s.read == s.sent {
+				s.eof = true
+			}
+			return fmt.Sprintf("rd %d %d", sidOf(g.lKind, num), n)
+		case 3: // the application closes its side
+			if len(closable) == 0 {
+				if g.lKind == "br" && g.lOpened >= 1 && r.Chance(30) {
+					num := r.Range(1, g.lOpened)
+					if s := st(num); s.sent > 0 || s.fin {
+						s.touched, s.cls = true, true
+						return fmt.Sprintf("cls %d", sidOf(g.lKind, num))
+					}
+				}
+				continue
+			}
+			num := closable[r.Intn(len(closable))]
+			st(num).cls = true
+			return fmt.Sprintf("cls %d", sidOf(g.lKind, num))
+		case 4:
+			if r.Chance(25) {
+				return "acc " + map[string]string{"br": "b", "uni": "u"}[g.lKind]
+			}
+			return fmt.Sprintf("pack %d", t)
+		case 5: // the application stops reading a stream (before or after its end is known)
+			if g.lOpened < 1 {
+				continue
+			}
+			num := r.Range(1, min(g.lOpened, 5000))
+			s := st(num)
+			if s.stopped || (s.sent == 0 && !s.fin) {
+				continue
+			}
+			s.stopped, s.touched = true, true
+			return fmt.Sprintf("stop %d", sidOf(g.lKind, num))
+		}
+	}
+	return fmt.Sprintf("pack %d", t)
+}
+
 func (rn *runner) GenOp(r *vh.Rand, i int) string {
 	if i == 0 {
 		rn.mkPlan(r)
@@ -987,7 +1227,11 @@ func (rn *runner) GenOp(r *vh.Rand, i int) string {
 	// a little cross traffic of the other kinds in every case
 	focus := g.focus
 	if r.Chance(12) {
-		focus = r.Intn(4)
+		if focus == focusLife {
+			focus = r.Intn(2) // (the other stream generators use the same stream numbers)
+		} else {
+			focus = r.Intn(4)
+		}
 	}
 	switch focus {
 	case focusCID:
@@ -996,6 +1240,8 @@ func (rn *runner) GenOp(r *vh.Rand, i int) string {
 		return rn.genIdle(r)
 	case focusStreams:
 		return rn.genStreams(r)
+	case focusLife:
+		return rn.genLife(r)
 	default:
 		return rn.genFlow(r)
 	}
